@@ -71,6 +71,8 @@ TCbBegin  == IsEv("taskcb.begin") /\ UNCHANGED aux /\ Clr
                   /\ s1.pc = "cbwait"
                   /\ (s1.h.direct \/ E.cur = E.t)                 \* on the task's pool thread
                   /\ s' = CbBegin(s1, [E EXCEPT !.mem = Tup(E.mem)])
+TCbRead   == IsEv("cb.read") /\ s.pc = "cb" /\ Len(E.ids) <= Len(s.q) /\ Tup(E.ids) = SubSeq(s.q, 1, Len(E.ids))
+             /\ s' = CbRead(s, Tup(E.ids)) /\ KeepOp /\ UNCHANGED aux
 TRewind   == IsEv("cb.rewind") /\ s.pc = "cb" /\ s' = CbRewind(s) /\ KeepOp /\ UNCHANGED aux
 TCbEnd    == IsEv("taskcb.end") /\ s.pc \in {"cb", "dead"} /\ op = << >> /\ aux.api = "" /\ s' = CbEnd(s, E.ret) /\ KeepOp /\ UNCHANGED aux
 TLoopTurn == IsEv("loop.turn") /\ UNCHANGED aux
@@ -89,7 +91,7 @@ TReset    == IsEv("Reset") /\ s' = NewTask(0, 0, 0, 0, << >>) /\ Clr /\ aux' = N
 
 Report == \A n \in s'.notes \ s.notes : PrintT(ToJson([note |-> n, line |-> l]))
 TNext == /\ \/ TNew \/ TFill \/ TCreate \/ TCallStart \/ TRetStart \/ TCallRestart \/ TRetRestart \/ TCallApi \/ TRetStop
-            \/ TRetEnable \/ TRetDestroy \/ TPost \/ TSettime \/ TFail \/ TLoopCb \/ TIo \/ TCbBegin \/ TRewind \/ TCbEnd
+            \/ TRetEnable \/ TRetDestroy \/ TPost \/ TSettime \/ TFail \/ TLoopCb \/ TIo \/ TCbBegin \/ TRewind \/ TCbRead \/ TCbEnd
             \/ TLoopTurn \/ TPeerW \/ TPeerC \/ TPeerR \/ TWaited \/ TQuiesce \/ TCount \/ TReset
          /\ Report
 TSpec == TInit /\ [][TNext]_tvars
